@@ -235,6 +235,50 @@ pub fn run(a: &Args) {
         }
     }
 
+    // --- epoch-neighbourhood grid: (t + offset) crossing zero and day boundaries for
+    //     every extreme offset (|offset| may exceed 24h) --------------------------------------
+    let mut grid_secs: Vec<i64> = Vec::new();
+    for k in -27i64..=27 {
+        for j in [-1i64, 0, 1] {
+            grid_secs.push(k * 3600 + j);
+        }
+    }
+    for v in [86399i64, 86400, 86401, 93598, 93599, 93600, 90000, 172799, 172800, 172801] {
+        grid_secs.push(v);
+        grid_secs.push(-v);
+    }
+    let grid_offs: Vec<i32> = OFFSETS
+        .iter()
+        .copied()
+        .chain([-86401, 86401, -90000, 90000, -93598, 93598, -86399, 43200, -3599, 3601])
+        .collect();
+    for &s in &grid_secs {
+        for &o in &grid_offs {
+            for f in [0i32, 1, 500_000_000, 999_999_999] {
+                let ns = if s < 0 { -f } else { f };
+                if let Ok(ts) = Timestamp::new(s, ns) {
+                    out.emit(ts_civil(ts, o, "epoch-grid"));
+                }
+                if s == 0 && f != 0 {
+                    if let Ok(ts) = Timestamp::new(0, -f) {
+                        out.emit(ts_civil(ts, o, "epoch-grid"));
+                    }
+                }
+            }
+        }
+    }
+    // the same offsets at both ends of the range
+    for base in [Timestamp::MIN.as_second(), Timestamp::MAX.as_second()] {
+        for d in -2i64..=2 {
+            for &o in &grid_offs {
+                let s = base + d * 43200;
+                if let Ok(ts) = Timestamp::new(s, if s < 0 { -1 } else { 1 }) {
+                    out.emit(ts_civil(ts, o, "limit"));
+                }
+            }
+        }
+    }
+
     // --- limits ------------------------------------------------------------------------
     let lim = [
         Timestamp::MIN, Timestamp::MAX, Timestamp::UNIX_EPOCH,
